@@ -136,7 +136,8 @@ def strategy():
     upd = qgen.st_case_update(js=True, join_p=4)
     updj = qgen.st_case_update(js=True, join_p=1, multi_match=True)
     exc = qgen.st_case_select(js=True, join_p=0, except_p=1, distinct=True, top=True, order=True)
-    return st.one_of(sel, ordd, joins, st_agg_case(), upd, updj, st_failing(), exc)
+    from . import c04
+    return st.one_of(sel, ordd, joins, st_agg_case(), upd, updj, st_failing(), exc, c04.st_int_key_join())
 
 
 JS_ERR = {'parsing': ('RbqlParsingError', 'SyntaxError'), 'runtime': ('RbqlRuntimeError',)}
